@@ -418,6 +418,8 @@ class Maker:
       return {k: self(v) for k, v in d['dict']}
     if 'box' in d:
       return stubmod.TempBox([self(e) for e in d['box']])
+    if 'late' in d:
+      return stubmod.LateBox([self(e) for e in d['late']])
     if 'nt' in d:
       return stubmod.NT(*[self(e) for e in d['nt']])
     if 'ddict' in d:
@@ -516,6 +518,8 @@ def model_build(v, memo, flags=None):
            if isinstance(v, collections.defaultdict) else items)
   elif isinstance(v, stubmod.TempBox):
     out = stubmod.TempBox([model_build(e, memo, flags) for e in v.children])
+  elif isinstance(v, stubmod.LateBox):
+    out = stubmod.LateBox([model_build(e, memo, flags) for e in v.children])
   else:
     return v
   memo[k] = (v, out)
